@@ -848,3 +848,58 @@ func TestBoundedC02(t *testing.T) {
 		}
 	}
 }
+
+// ---- C04: the reader on foreign legal encodings of the same content (bounded)
+
+func TestBoundedC04(t *testing.T) {
+	rs := recs(700, 4)
+	rng := rand.New(rand.NewSource(404))
+	for round := 0; round < 60; round++ {
+		n := []int{1, 2, 5, 9, 17, 40, 130, 700}[round%8]
+		batches := []int{n}
+		if round%3 == 1 && n > 2 {
+			batches = []int{n / 2, n - n/2}
+		}
+		cname := []string{"uncompressed", "snappy", "gzip"}[round%3]
+		file := writeFile(t, rs[:n], []int{1, 3, 8, 1000}[round%4], batches, codecs[cname])
+		// the rewritten file must be legal: the independent checker accepts it (page size: unbounded)
+		alt, err := fcheck.Rewrite(file, recLeaves, rng, fcheck.RewriteOpts{BigRuns: n >= 600})
+		if err != nil {
+			t.Fatalf("rewriter: %v", err)
+		}
+		want := make([]Rec, n)
+		for i := range want {
+			want[i] = norm(rs[i])
+		}
+		// the re-encoded file is legal and holds the same content: the independent checker
+		// accepts it, and decoding it independently gives the columns of the original
+		if errs := fcheck.Check(alt, fcheck.Expect{Leaves: recLeaves, Codec: -1, PageSize: 1 << 30, Batches: batches}); len(errs) > 0 {
+			t.Fatalf("rewriter produced a file the independent checker rejects: %v", errs[0])
+		}
+		if d := fcheck.SameColumns(file, alt, recLeaves); d != "" {
+			t.Fatalf("rewriter changed the content: %s", d)
+		}
+		func() {
+			defer func() {
+				if r := recover(); r != nil {
+					t.Errorf("REPLAY-FAIL C04 round=%d records=%d batches=%v: reader panics on a re-encoded file: %v", round, n, batches, r)
+				}
+			}()
+			got, err := readAll(bytes.NewReader(alt))
+			if err != nil {
+				t.Errorf("REPLAY-FAIL C04 round=%d records=%d batches=%v: reader fails on a re-encoded file: %v", round, n, batches, err)
+				return
+			}
+			if len(got) != len(want) {
+				t.Errorf("REPLAY-FAIL C04 round=%d records=%d batches=%v: %d records read from the re-encoded file", round, n, batches, len(got))
+				return
+			}
+			for i := range got {
+				if !reflect.DeepEqual(got[i], want[i]) {
+					t.Errorf("REPLAY-FAIL C04 round=%d records=%d batches=%v: record %d differs when read from the re-encoded file (run segmentation, page splits, per-column codecs changed; same content)", round, n, batches, i)
+					return
+				}
+			}
+		}()
+	}
+}
